@@ -196,6 +196,33 @@ def gen_params_many_features(draw):
     return p
 
 
+@st.composite
+def gen_params_near_capacity(draw):
+    """requests at or just below the number of distinct definitions that can exist:
+    num_exploits ~ S*(O+1), num_privescs ~ P*(O+1), with capacities from 4 to ~400"""
+    p = draw(gen_params(max_hosts=6, max_services=3))
+    S = draw(st.sampled_from([2, 3, 5, 8, 12, 20, 30, 50, 60]))
+    O = draw(st.integers(1, 6))
+    P = draw(st.sampled_from([1, 2, 4, 8, 15, 30]))
+    p.update(num_services=S, num_os=O, num_processes=P)
+    p.pop("address_space_bounds", None)
+    if isinstance(p.get("exploit_probs"), list):
+        p["exploit_probs"] = 0.5
+    if isinstance(p.get("privesc_probs"), list):
+        p["privesc_probs"] = 0.75
+    p["uniform"] = False
+    p.setdefault("alpha_H", 2.0)
+    p.setdefault("alpha_V", 2.0)
+    p.setdefault("lambda_V", 5.0)
+    ce, cp = S * (O + 1), P * (O + 1)
+    p["num_exploits"] = max(1, ce - draw(st.sampled_from([0, 0, 1, 2, ce // 33, ce // 10])))
+    if draw(st.booleans()):
+        p["num_privescs"] = max(1, cp - draw(st.sampled_from([0, 0, 1, 2, cp // 10])))
+    else:
+        p.pop("num_privescs", None)
+    return p
+
+
 def generated_case(params):
     import nasim
     scn = nasim.generate_scenario(**params)
